@@ -137,7 +137,15 @@ class Check:
         for key, (k, names) in seen_keys.items():
             lines.append("KNOWN-FINDING: property={} {} [{} obligation(s), key {}]".format(
                 self.pid, k.get("what", ""), len(names), key))
-        for o in violations:
+        MAXV = 12
+        if len(violations) > MAXV:
+            # confirmed replays first; the rest is summarised (all names are in the evidence file)
+            violations_sorted = sorted(violations, key=lambda o: 0 if (o.replay and o.replay.get("confirmed")) else 1)
+            lines.append("NOTE: {} failed obligations; VIOLATION lines for the first {} (all names in evidence/{}.json)".format(
+                len(violations), MAXV, self.pid))
+        else:
+            violations_sorted = violations
+        for o in violations_sorted[:MAXV]:
             path = os.path.join(REPLAY_DIR, "{}-{}.json".format(self.pid, _sanitize(o.name)))
             rep = dict(property=self.pid, obligation=o.name, kind=o.kind, backend=o.backend,
                        detail=o.detail, model=o.model, replay=o.replay)
@@ -181,6 +189,11 @@ class Check:
             notes=self.notes,
             generator_errors=self.errors,
         )
+        if not cov["explanation"]:
+            cov["explanation"] = ("proved part: {} obligations over {} functions under contract; bounded part (run-time contracts on the "
+                                  "real code, never counted as proved): {}".format(
+                                      len(n_proved), len(self.functions),
+                                      "; ".join("{} [{}]".format(k, b["bound"]) for k, b in self.bounded.items()) or "none"))
         cov.update(self.extra)
         # exploration-style keys (measured): bounded evaluations + obligations
         ev = sum(b["evaluations"] for b in self.bounded.values())
